@@ -121,6 +121,7 @@ def run(ctx):
     def oracles():
         import traceback
         for fn, args in ((_oracle_reference_matrices, (ctx, relems, tr)), (_oracle_tind_mapping, (ctx, meshes, tr)),
+                         (_oracle_repeated_bases, (ctx, meshes, tr)), (_oracle_given_quadrature, (ctx, meshes, tr)),
                          (_oracle_subset_sequences, (ctx, meshes, tr)), (_oracle_order_sweep, (ctx, tr)),
                          (_oracle_cells, (ctx, meshes, tr)), (_oracle_facets, (ctx, meshes, tr)), (_oracle_invariance, (ctx, meshes, tr)),
                          (_oracle_lagrange, (ctx, tr)), (_oracle_partition_of_unity, (ctx, meshes, tr))):
@@ -437,6 +438,111 @@ def _oracle_tind_mapping(ctx, meshes, tr):
         tr.cmp(f'tind-mapping:{kind}:gradient', f'integral of d/dx_0 of the interpolant of a linear function over cells {list(map(int, cells_a))} '
                f'with mapping=MappingAffine(mesh, tind=cells)', got, sub_measure, measure,
                {**mesh_data(m), 'elements': [int(c) for c in cells_a], 'tind_mapping': True, 'linear_function_coefficients': coef})
+
+
+# ---- REPEATED construction of bases on one mesh / mapping object (results may not depend on what was built before)
+
+def _oracle_repeated_bases(ctx, meshes, tr):
+    """three CellBasis (and FacetBasis) objects built one after the other on the same mesh object with the same order:
+    every one must integrate exactly.  Includes 1-D isoparametric mappings: a MappingIsoparametric shared by the bases
+    of a MeshLine, and a periodic MeshLine1DG"""
+    import skfem
+    from skfem.assembly import Basis, FacetBasis
+    from skfem.mapping import MappingIsoparametric
+    rng = ctx.rng
+    cases = []      # (label, mesh for construction, mesh for exact values, kwargs factory)
+    xs = np.array([0., 1., 3., 4., 7.])
+    ml = skfem.MeshLine(xs)
+    iso = MappingIsoparametric(ml, skfem.ElementLineP1())
+    cases.append(('line-isoparametric', ml, ml, {'mapping': iso}))
+    mper = skfem.MeshLine1DG.periodic(skfem.MeshLine(xs), [len(xs) - 1], [0])
+    cases.append(('line-periodic-DG', mper, skfem.MeshLine(xs), {}))
+    ml2 = X.make_mesh('line', rng, general=True)
+    cases.append(('line-isoparametric', ml2, ml2, {'mapping': MappingIsoparametric(ml2, skfem.ElementLineP1())}))
+    for kind, general, m in meshes:
+        cases.append((kind + ('-general' if general else ''), m, m, {}))
+    for label, m, mex, kw in cases:
+        d = mex.p.shape[0]
+        kindx = X.mesh_kind(mex)
+        elem = default_elem(mex)
+        n = 3
+        deg = 2 if label == 'quad-general' else 3
+        polys = [X.monomial(tuple([0] * d)), X.monomial(tuple([deg] + [0] * (d - 1)))]
+        one = {tuple([0] * d): Fraction(1)}
+        measure = float(sum(X.cell_integrals(mex, one)))
+        wants = [float(sum(X.cell_integrals(mex, pl))) for pl in polys]
+        for k in range(3):
+            b = Basis(m, elem, intorder=n, **kw)
+            for pl, want in zip(polys, wants):
+                e = next(iter(pl))
+                got = float(functional_of(pl).assemble(b))
+                ctx.count(('repeat', label, k, e, np.asarray(mex.p).tobytes()), nontrivial=k >= 1)
+                tr.cmp(f'repeated-basis:{label}', f'Functional(x^{list(e)}) with CellBasis no. {k + 1} built on one {label} mesh object, intorder {n}',
+                       got, want, scale_of(mex, pl, measure),
+                       {**mesh_data(mex), 'construction': label, 'intorder': n, 'monomial': list(e), 'repetition': k + 1})
+        if kw or kindx in ('wedge', 'line') or label in ('quad-general', 'line-periodic-DG'):
+            continue
+        fs = m.boundary_facets()
+        fone = max(X.facet_integral_value(m, one, fs), 1.0)
+        fwants = [X.facet_integral_value(m, pl, fs) for pl in polys]
+        for k in range(2):
+            fb = FacetBasis(m, elem, facets=fs, intorder=n)
+            for pl, want in zip(polys, fwants):
+                e = next(iter(pl))
+                got = float(functional_of(pl).assemble(fb))
+                ctx.count(('repeat-facets', label, k, e, np.asarray(m.p).tobytes()), nontrivial=k >= 1)
+                tr.cmp(f'repeated-facetbasis:{label}', f'Functional(x^{list(e)}) with FacetBasis no. {k + 1} built on one {label} mesh object',
+                       got, want, scale_of(m, pl, fone),
+                       {**mesh_data(m), 'facets': np.asarray(fs).tolist(), 'intorder': n, 'monomial': list(e), 'repetition': k + 1})
+
+
+# ---- an explicitly given quadrature rule is THE rule of the basis, whatever intorder says
+
+def _oracle_given_quadrature(ctx, meshes, tr):
+    """Basis(mesh, elem, quadrature=(X, W), intorder=n): basis.X / basis.W are the given arrays and the integrals are those
+    of the given rule (exact up to the degree of that rule), for n below and above the rule's degree"""
+    from skfem.assembly import Basis, FacetBasis
+    from skfem.quadrature import get_quadrature
+    seen = set()
+    for kind, general, m in meshes:
+        if kind in seen or general:
+            continue
+        seen.add(kind)
+        d = m.p.shape[0]
+        elem = default_elem(m)
+        krule = {'line': 5, 'tri': 4, 'tet': 3, 'quad': 3, 'hex': 3, 'wedge': 3}[kind]
+        Xq, Wq = get_quadrature(elem.refdom, krule)
+        one = {tuple([0] * d): Fraction(1)}
+        measure = float(sum(X.cell_integrals(m, one)))
+        for n in (1, krule + 2, None):
+            Xg, Wg = np.array(Xq, copy=True), np.array(Wq, copy=True)
+            b = Basis(m, elem, quadrature=(Xg, Wg), intorder=n) if n is not None else Basis(m, elem, quadrature=(Xg, Wg))
+            ctx.count(('given-quadrature', kind, n), nontrivial=n is not None)
+            if not (np.array_equal(np.asarray(b.X), Xq) and np.array_equal(np.asarray(b.W), Wq)):
+                ctx.fail(f'given-quadrature:{kind}:points', f'Basis(.., quadrature=(X, W), intorder={n}) on a {kind} mesh does not use the given rule: '
+                         f'basis.W has {np.asarray(b.W).shape[0]} weights, the given rule {Wq.shape[0]}',
+                         {**mesh_data(m), 'rule_order': krule, 'intorder': n, 'given_W': Wq.tolist(), 'basis_W': np.asarray(b.W).tolist()})
+            for e in [e for e in monos(d, krule) if sum(e) == krule][:3]:
+                pl = X.monomial(e)
+                want = float(sum(X.cell_integrals(m, pl)))
+                got = float(functional_of(pl).assemble(b))
+                tr.cmp(f'given-quadrature:{kind}', f'Functional(x^{list(e)}) with quadrature = the order-{krule} rule and intorder={n} on a {kind} mesh',
+                       got, want, scale_of(m, pl, measure),
+                       {**mesh_data(m), 'rule_order': krule, 'intorder': n, 'monomial': list(e)})
+        if kind in ('tri', 'quad', 'tet'):
+            kf = 4
+            Xf, Wf = get_quadrature(elem.refdom.brefdom, kf)
+            fs = m.boundary_facets()
+            fone = max(X.facet_integral_value(m, one, fs), 1.0)
+            fb = FacetBasis(m, elem, facets=fs, quadrature=(np.array(Xf, copy=True), np.array(Wf, copy=True)), intorder=1)
+            if not (np.array_equal(np.asarray(fb.X), Xf) and np.array_equal(np.asarray(fb.W), Wf)):
+                ctx.fail(f'given-quadrature:{kind}:facet-points', f'FacetBasis(.., quadrature=(X, W), intorder=1) on a {kind} mesh does not use the given rule',
+                         {**mesh_data(m), 'rule_order': kf, 'intorder': 1})
+            for e in [e for e in monos(d, kf) if sum(e) == kf][:2]:
+                pl = X.monomial(e)
+                tr.cmp(f'given-quadrature:{kind}:facets', f'Functional(x^{list(e)}) over the boundary with quadrature = the order-{kf} rule and intorder=1',
+                       float(functional_of(pl).assemble(fb)), X.facet_integral_value(m, pl, fs), scale_of(m, pl, fone),
+                       {**mesh_data(m), 'rule_order': kf, 'intorder': 1, 'monomial': list(e)})
 
 
 # ---- several different cell / facet subsets of EQUAL size, one after the other on ONE long-lived mesh object
